@@ -150,16 +150,16 @@ type guardCheck struct {
 	argPair func(pre, sink ssa.CallInstruction) bool
 }
 
-func (g *guardCheck) check(fn *ssa.Function, sink ssa.CallInstruction, depth int) (bool, string) {
+func (g *guardCheck) check(fn *ssa.Function, sink ssa.Instruction, depth int) (bool, string) {
 	var pres []*ssa.Call
 	eachCall(fn, func(c ssa.CallInstruction) {
-		if call, ok := c.(*ssa.Call); ok && call != sink && g.pre.matches(call, wrapperDepth) {
+		if call, ok := c.(*ssa.Call); ok && ssa.Instruction(call) != sink && g.pre.matches(call, wrapperDepth) {
 			pres = append(pres, call)
 		}
 	})
 	var why []string
 	for _, a := range pres {
-		if g.argPair != nil && !g.argPair(a, sink) {
+		if sc, isCall := sink.(ssa.CallInstruction); isCall && g.argPair != nil && !g.argPair(a, sc) {
 			why = append(why, fmt.Sprintf("guard at %s is applied to a different value", g.p.Rel(a.Pos())))
 			continue
 		}
